@@ -681,6 +681,25 @@ def handler_mismatch(scen, key, step, pred):
     return None if got == want else f"saver of {key}: {got} (expected {want})"
 
 
+def inlined_facts(scen, step):
+    """Inlined savers: what the trace says about ParallelSourcePlugin's generator and its cleanup.
+      gen_aborted: cleanup ran although not every chunk had been submitted (the generator was thrown into);
+      close_at[k]: index (among the saver's operations) of the first operation of its close, if it began;
+      close_failed: first saver in creation order whose close began but did not end in the final rename — cleanup
+        stops there, the later savers are never closed."""
+    tr = step["trace"]
+    order = saver_order(tr)
+    tasks = {o["role"] for o in tr if o["role"].startswith("W")}
+    close_at, ok = {}, {}
+    for k in order:
+        obs = saver_ops(tr, k)
+        close_at[k] = next((i for i, o in enumerate(obs) if o["func"] == "FileSaver._close"), None)
+        ok[k] = bool(obs) and obs[-1]["name"] == "rename" and obs[-1]["fname"] is None and obs[-1]["res"] == "ok"
+    failed = next((k for k in order if close_at[k] is not None and not ok[k]), None)
+    return dict(order=order, gen_aborted=len(tasks) < len(PLANS[scen["plan"]]) and any(v is not None for v in close_at.values()),
+                close_at=close_at, close_failed=failed)
+
+
 def attempt_spec(scen, key, step, base_ops_model, show, hspec=None):
     """the attempt token the driver gets for one `make` attempt on one key, or None when the real code did not
     touch this key in that attempt (then only the state is compared).
@@ -718,6 +737,13 @@ def attempt_spec(scen, key, step, base_ops_model, show, hspec=None):
             k = model_index(base_ops_model(), scen["variant"], ft0["role"], ft0["j"]) if fr else None
             if k is not None:
                 parts.append({"exc": "exc@%d", "die_before": "db@%d", "die_after": "da@%d"}[ft0["kind"]] % k)
+                if scen["forked"] and ft0["kind"] == "exc" and fe is not None and fe["role"].startswith("W"):
+                    inl = inlined_facts(scen, step)
+                    if inl["close_at"].get(key) is not None and (cls == "handled" or inl["gen_aborted"]):
+                        parts.append(f"ab@{k + 1}")     # cleanup in an exception context (only find / load are compared)
+                    elif inl["close_at"].get(key) is None:
+                        parts.append(f"ab@{k + 1}")
+                        abandoned = 1
         elif died:
             parts.append(f"db@{len(ops)}" + ("?" if any(o["key"] == key and o["role"] != "R" and o["res"] == "inflight"
                                                           for o in step["trace"]) else ""))
@@ -740,6 +766,23 @@ def attempt_spec(scen, key, step, base_ops_model, show, hspec=None):
     for ft, o in fr:
         if ft["kind"] == "exc" and o["key"] == key and o["role"] != "R":
             parts.append("exc@%d" % obs.index(o))
+    if fe is not None and scen["forked"] and pred.get(key) != "abandoned" and not all(v == "abandoned" for v in pred.values()):
+        # inlined savers after the savers were created: pool tasks fail on their own (the saver is not told), the
+        # generator may or may not be thrown into, cleanup closes the savers in creation order and stops at a failing close
+        inl = inlined_facts(scen, step)
+        order = inl["order"]
+        for ft, o in fr:
+            if ft["kind"] == "exc" and o["role"].startswith("W") and o["key"] != key and o["key"] in order \
+                    and key in order[order.index(o["key"]):]:
+                parts.append("sk@%d" % sum(1 for x in obs if x["g"] < o["g"]))     # the task never came to this saver
+        ca = inl["close_at"].get(key)
+        if ca is not None:
+            if cls == "handled" or inl["gen_aborted"]:
+                parts.append(f"ab@{ca}")
+        elif not died:
+            parts.append(f"ab@{len(ops)}")          # cleanup stopped at an earlier saver's failing close
+            abandoned = 1
+        fe = None
     if fe is not None:
         want = pred.get(key, "handled")
         mine = fe["key"] == key and fe["role"] != "R"
@@ -916,6 +959,8 @@ def build_rows(case, res, driver):
 # ----------------------------------------------------------------------------- oracle (independent of the model)
 D35_TAG = ("[D35-shape: forked saver, fault on a worker-side chunk write/rename, caller saw the exception, "
            "is_stored True afterwards]")
+D35_TAG_DIED = ("[D35-shape: forked saver, fault on a worker-side chunk write/rename, process died after the savers were closed, "
+                "is_stored True afterwards]")
 # `FileSytemBackend._saver` probes the parent directory (makedirs + access) BEFORE a saver exists and turns an OSError
 # into DataNotAvailable, which `Context._add_saver` (get_components) catches: strax's rule "a storage frontend that
 # cannot take the data is skipped".  With a single frontend `make` then computes, stores nothing and returns.
@@ -948,8 +993,10 @@ def oracle_case(case, res):
     ft0 = steps[0]["fault"]
     o0 = fault_op(steps[0])
     # the shape of D35: inlined savers, one exception, injected into an operation of a pool task, which reached the caller
-    d35_shape = bool(scen["forked"] and ft0 and ft0["kind"] == "exc" and ft0["role"].startswith("W") and not case.get("then")
-                     and steps[0]["outcome"].startswith("raised") and o0 is not None and o0["res"] == "exc")
+    excs0 = [o for o in steps[0]["trace"] if o["res"] == "exc"]
+    d35_shape = bool(scen["forked"] and ft0 and ft0["kind"] == "exc" and ft0["role"].startswith("W")
+                     and (steps[0]["outcome"].startswith("raised") or steps[0]["outcome"] == "died") and o0 is not None and o0["res"] == "exc"
+                     and all(o["role"].startswith("W") for o in excs0))
     for si, step in enumerate(steps):
         ft = step["fault"]
         tag = f"after attempt {si} ({'fault ' + '+'.join(f['kind'] for f in step['faults']) if ft else 'clean retry'})"
@@ -988,7 +1035,7 @@ def oracle_case(case, res):
                 plain.append(f"{tag}: make returned normally but {target} is not stored (find={step['after'][target]['find']})")
     if plain:
         return "; ".join(plain + d35)
-    return ("; ".join(d35) + " " + D35_TAG) if d35 else None
+    return ("; ".join(d35) + " " + (D35_TAG_DIED if steps[0]["outcome"] == "died" else D35_TAG)) if d35 else None
 
 
 # ----------------------------------------------------------------------------- driver of the whole check
